@@ -4,6 +4,8 @@ import Gallia.Proofs.Lemmas.VEcuSA
 import Gallia.Proofs.Lemmas.ServerHist
 import Gallia.Proofs.Lemmas.VEcuConn
 import Gallia.Gen.C14Handlers
+import Gallia.Gen.C14Partial
+import Gallia.Model.VEcuPartial
 /-
   C14 - the virtual ECU survives any request and the client accepts its answers.
 
@@ -573,6 +575,76 @@ example : (vecuHandleSE allOn exM ⟨⟨3, none, some (1, [0x42])⟩, 8⟩ ⟨48
     (vecuHandleSE allOn exM ⟨⟨3, none, some (1, [0x42])⟩, 8⟩ ⟨49, 50, [0x27, 0x02, 0x42], {}⟩).2 =
       .ok ⟨1, none, none⟩ (some (.neg 0x27 0x7F)) := by decide +kernel
 
+/-! ## the handlers with their Python-level partial operations (`Model/VEcuPartial.lean`) -/
+
+/-- (T) every operation of the request path that can raise, per function and in source order, regenerated from the AST
+    of server.py on every run: a new subscript, slice, division, `to_bytes` / `struct` / `decode` call, `assert`, `raise`
+    or read through the optional `last_sa_response` in `handle_client`, `handle_request`, `respond_after_default`,
+    `update_state`, a handler or `random_payload` breaks this theorem; so does a third class below
+    `_SecurityAccessRequest` (it would reach the `raise AssertionError` of `security_access`) -/
+theorem partial_ops_agree : Gen.C14Partial.partialOps = [
+  ("TCPUDSServerTransport.handle_client", [("call", "line.decode"), ("call", "unhexlify"), ("div", "sum(response_times) / len(response_times)")]),
+  ("UDSServerTransport.handle_request", []),
+  ("RandomUDSServer.respond_after_default", []),
+  ("RandomUDSServer.update_state", []),
+  ("RandomUDSServer.ecu_reset", []),
+  ("RandomUDSServer.security_access", [("optattr", "self.state.last_sa_response.security_access_type"), ("optattr", "self.state.last_sa_response.security_seed"), ("raise", "AssertionError")]),
+  ("RandomUDSServer.routine_control", []),
+  ("RandomUDSServer.read_data_by_identifier", []),
+  ("RandomUDSServer.write_data_by_identifier", []),
+  ("RandomUDSServer.input_output_control_by_identifier", []),
+  ("RandomUDSServer.clear_diagnostic_information", []),
+  ("RandomUDSServer.read_dtc_information", [("assert", "request.service_id == UDSIsoServices.ReadDTCInformation")]),
+  ("RNG.random_payload", [])] ∧
+    Gen.C14Partial.securityAccessClasses = ["RequestSeedRequest", "SendKeyRequest"] := by decide
+
+/-- **no handler raises, on any parsed request, in any state, for any oracle**: evaluated in Python's order with every
+    partial operation of `partial_ops_agree` able to fail (`AttributeError` on a `None` seed memory, the `AssertionError`
+    of `security_access`, the `assert` of `read_dtc_information`), `respond_after_default` returns - and returns what
+    `typedHandler` (the model the other theorems are about) returns -/
+theorem handler_never_raises (o : Orc) (st : SrvState) (r : UdsReq.Req) :
+    typedHandlerE o st r = .ok (typedHandler o st r) := by
+  cases r with
+  | sendKey lvl key sup =>
+    cases h : st.lastSA with
+    | none => simp [typedHandlerE, isSecurityAccess, securityAccessE, typedHandler, sendKey, h, bind, Except.bind, pure, Except.pure]
+    | some p =>
+      obtain ⟨t0, seed⟩ := p
+      simp only [typedHandlerE, isSecurityAccess, securityAccessE, typedHandler, sendKey, h, optAttr, bind, Except.bind, pure, Except.pure,
+        Option.isNone_some, Bool.false_eq_true, ↓reduceIte]
+      by_cases h1 : lvl ≠ t0 + 1
+      · simp [h1]
+      · simp only [h1, decide_false, Bool.false_eq_true, ↓reduceIte]
+        by_cases h2 : key = seed <;> simp [h2]
+  | raw b =>
+    simp only [typedHandlerE, isSecurityAccess, typedHandler, readDtcE, sidOf, UdsReq.encode, Bool.false_eq_true, ↓reduceIte]
+    cases b with
+    | nil => simp
+    | cons x t => by_cases hx : x = 0x19 <;> simp [hx]
+  | dtcByMask sf mask sup =>
+    by_cases hs : sf = dtcByStatusMask <;>
+      simp [typedHandlerE, isSecurityAccess, typedHandler, readDtcE, sidOf, UdsReq.encode, hs]
+  | clearDDDI d sup => cases d <;> simp [typedHandlerE, isSecurityAccess, typedHandler, sidOf, UdsReq.encode]
+  | _ => simp [typedHandlerE, isSecurityAccess, securityAccessE, typedHandler, readDtcE, sidOf, UdsReq.encode]
+
+/-- **never raises, over the richer outcome type**: for every model, every state whose session is offered, every
+    non-empty request and every oracle neither the rule chain (two asserts, one index error) nor the handler the chain
+    lets the request through to (attribute of `None`, two assertion sites) raises -/
+theorem never_raises_py (m : Model) (o : Orc) (st : SrvState) (b : Bytes) (hr : Ready m st) (hb : b ≠ []) :
+    (∀ c, vecuRespond m o st b ≠ .crash c) ∧ (∀ e, typedHandlerE o st (UdsReq.decode b) ≠ .error e) ∧
+      typedHandlerE o st (UdsReq.decode b) = .ok (typedHandler o st (UdsReq.decode b)) := by
+  refine ⟨never_raises m o st b hr hb, ?_, handler_never_raises o st _⟩
+  intro e h
+  rw [handler_never_raises] at h
+  cases h
+
+/-- the error outcomes are real outcomes of the pieces (reached when the guards are taken away): a key request with no
+    seed memory read without the `is None` test, `security_access` / `read_dtc_information` on a foreign request; and
+    the guarded whole answers a key without seed memory with requestSequenceError -/
+example : (optAttr (none : Option (Nat × Bytes)) = .error .attributeOfNone) ∧
+    securityAccessE {} s1 (.rdbi [1]) = .error .assertion ∧ readDtcE {} (.rdbi [1]) = .error .assertion ∧
+    typedHandlerE {} s1 (.sendKey 2 [1] false) = .ok (some (.neg 0x27 0x24)) := ⟨rfl, rfl, rfl, rfl⟩
+
 /-! ## the whole connection: `TCPUDSServerTransport.handle_client` between the virtual ECU and the client's line
     layer (`Model/VEcuConn.lean`) -/
 
@@ -838,6 +910,18 @@ theorem conn_exchanges_are_events (m : Model) (hm : ModelOK m) (hist : List CIte
       rw [this]
     simp only [runExchanges, List.map_cons, runConn, stepConn]
     rw [ih _ hq' (fun p hp => hall p (by simp [hp])), hpump]
+
+/-- the division after the loop is defined once a request was served: after any non-empty history of non-empty
+    requests `len(response_times)` is not zero -/
+theorem conn_epilogue_defined (m : Model) (hm : ModelOK m) (evs : List Event) (t0 : Nat) (hne : evs ≠ [])
+    (hall : ∀ e ∈ evs, ∃ l s t o b, e = .line l s t o ∧ decodeLine l = .msg b ∧ b ≠ []) :
+    (runConn m (Conn.opened t0) evs).1.epilogueRaises = false := by
+  have h := conn_served_all m hm evs (Conn.opened t0) rfl hm.ready_init hall
+  have hl : 0 < evs.length := List.length_pos_iff.mpr hne
+  unfold Conn.epilogueRaises
+  rw [h]
+  simp only [Conn.opened, Nat.zero_add, beq_eq_false_iff_ne, ne_eq]
+  omega
 
 /-- non-vacuity: TesterPresent answered, TesterPresent with the suppress bit (timeout, nothing left), a session change
     read back as the answer to itself; then an all-whitespace line ends the loop with IndexError; a line of odd length
